@@ -377,7 +377,7 @@ func c20GenBlindRot(c *Ctx) {
 
 		// ---- evaluations ----
 		evalBR := blindrot.NewEvaluator(psBR.params, psL.params)
-		c20BRCore(c, psBR, psL, evalBR, BRK, skBR, sBR, sL, tps[ci%len(tps)].poly, w)
+		c20BRCore(c, psBR, psL, evalBR, BRK, skBR, sBR, sL, tps[ci%len(tps)].poly, w, cfg.noTie)
 		QLb := c20ProdBig(QL)
 		llq := len(QL) - 1
 		// grid points k in [-N/2, N/2], NL of them per LWE sample
@@ -847,10 +847,29 @@ func c20BREvaluate(c *Ctx, psBR, psL *c20PS, evalBR *blindrot.Evaluator, BRK bli
 	}
 }
 
+// c20BRKeyArgs: the Galois keys and the blind-rotation keys as line tokens (gk, k<i>0/1, nb, b<j>_..).
+func c20BRKeyArgs(psBR *c20PS, BRK blindrot.MemBlindRotationEvaluationKeySet) string {
+	var sb strings.Builder
+	evk, _ := BRK.GetEvaluationKeySet()
+	gl := append([]uint64{}, evk.GetGaloisKeysList()...)
+	sort.Slice(gl, func(i, j int) bool { return gl[i] < gl[j] })
+	fmt.Fprintf(&sb, "gk=%s", Vec(gl))
+	for i, g := range gl {
+		gk, _ := evk.GetGaloisKey(g)
+		k0, k1 := psBR.galoisKeyPolys(gk)
+		fmt.Fprintf(&sb, " k%d0=%s k%d1=%s", i, c20Polys(k0), i, c20Polys(k1))
+	}
+	fmt.Fprintf(&sb, " nb=%d", len(BRK.BlindRotationKeys))
+	for j, k := range BRK.BlindRotationKeys {
+		fmt.Fprintf(&sb, " %s", c20RGSWArgs(fmt.Sprintf("b%d_", j), psBR.rgswPolys(k)))
+	}
+	return sb.String()
+}
+
 // c20BRCore: the entry point BlindRotateCore called directly: acc = (phi_{2N-5}(F*X^b), 0), a mask with odd, zero and
 // 2N-1 entries.  Probes: the mask, the keys are unchanged; the accumulator decrypts to F*X^(b + <a, s>).
 func c20BRCore(c *Ctx, psBR, psL *c20PS, evalBR *blindrot.Evaluator, BRK blindrot.MemBlindRotationEvaluationKeySet,
-	skBR *rlwe.SecretKey, sBR, sL []int64, F ring.Poly, w int) {
+	skBR *rlwe.SecretKey, sBR, sL []int64, F ring.Poly, w int, noTie bool) {
 	N, NL := psBR.N(), psL.N()
 	twoN := uint64(2 * N)
 	lq, lp := BRK.BlindRotationKeys[0].LevelQ(), BRK.BlindRotationKeys[0].LevelP()
@@ -878,6 +897,7 @@ func c20BRCore(c *Ctx, psBR, psL *c20PS, evalBR *blindrot.Evaluator, BRK blindro
 	ringQ.MulCoeffsMontgomery(F, Xb, tmp)
 	ringQ.AutomorphismNTT(tmp, ringQ.NthRoot()-ring.GaloisGen, acc.Value[0])
 	aCopy := append([]uint64(nil), a...)
+	accIn := psBR.ctPolys(acc, lq)
 	var x0 c20Hasher
 	for _, k := range BRK.BlindRotationKeys {
 		c20SnapGadget(&x0, &k.Value[0])
@@ -893,6 +913,11 @@ func c20BRCore(c *Ctx, psBR, psL *c20PS, evalBR *blindrot.Evaluator, BRK blindro
 	for _, k := range BRK.BlindRotationKeys {
 		c20SnapGadget(&x1, &k.Value[0])
 		c20SnapGadget(&x1, &k.Value[1])
+	}
+	if out == "ok" && !noTie && !probesOnly() {
+		// model-level tie of the entry point: the accumulator after the schedule of the mask, exactly
+		c.Emit(fmt.Sprintf("br_core %s a=%s acc=%s %s", c20ParTokens(psBR, lq, lp, w), Vec(aCopy), c20Polys(accIn), c20BRKeyArgs(psBR, BRK)),
+			c20Polys(psBR.ctPolys(acc, lq)))
 	}
 	c20Unchanged(c, "blindrot_inputs_unchanged", fmt.Sprintf("n=%d nl=%d entry=BlindRotateCore seed=%d line=%d", N, NL, c.Seed, c.N), "blindrot-input-mutated",
 		map[string]string{"a": Vec(aCopy), "keys": fmt.Sprintf("%x", x0.h)}, map[string]string{"a": Vec(a), "keys": fmt.Sprintf("%x", x1.h)})
